@@ -574,6 +574,7 @@ func (s resolverSuite) Run(raw json.RawMessage) []Step {
 		steps = append(steps, s.e2eStep(c, enc)...)
 	}
 	if s.name == "resolver" {
+		steps = append(steps, transResolverSteps(c)...)
 		// every constraint of the world and of every package, asked of ResolvePackage on its own
 		seen := map[string]bool{}
 		ask := func(con string) {
